@@ -79,6 +79,10 @@ inductive Behaviour where
   | idle
   /-- writes the first half of one more message and stays connected until the collector has been stopped -/
   | half
+  /-- TLS: connects at TCP level, sends the first 3 bytes of a ClientHello and stays connected until the
+      collector has been stopped (a stalled handshake must not block other exporters or Stop);
+      on the other transports it behaves like `idle` -/
+  | stall
 deriving Repr, DecidableEq
 
 structure Client where
@@ -99,7 +103,7 @@ deriving Repr
 def Scenario.sent (sc : Scenario) : List (ConnId × List Msg) :=
   (List.range sc.clients.length).zip sc.clients |>.map fun (i, cl) => (i + 1, List.range cl.n)
 
-def Client.holds (c : Client) : Bool := c.beh == .idle || c.beh == .half
+def Client.holds (c : Client) : Bool := c.beh == .idle || c.beh == .half || c.beh == .stall
 
 /-- clients that are still connected when all the others have gone -/
 def Scenario.holders (sc : Scenario) : Nat := (sc.clients.filter Client.holds).length
